@@ -382,7 +382,7 @@ func (fr *frame) visitInstr(instr ssa.Instruction) bool {
 	case *ssa.MakeSlice:
 		lenV, capV := fr.get(instr.Len), fr.get(instr.Cap)
 		tElt := instr.Type().Underlying().(*types.Slice).Elem()
-		l, c := in.makeSize(lenV, capV, tElt, fr.posStr(instr.Pos()))
+		l, c := in.makeSize(lenV, capV, isUnsigned(instr.Len.Type().Underlying().(*types.Basic)), tElt, fr.posStr(instr.Pos()))
 		s := make([]value, c)
 		for i := range s {
 			s[i] = zero(tElt)
@@ -951,7 +951,12 @@ func (in *Interp) typeAssert(instr *ssa.TypeAssert, itf iface) value {
 		err = fmt.Sprintf("interface conversion: interface is nil, not %s", instr.AssertedType)
 	} else if idst, ok := instr.AssertedType.Underlying().(*types.Interface); ok {
 		v = itf
-		if meth, _ := types.MissingMethod(itf.t, idst, true); meth != nil {
+		if isRtypeType(itf.t) {
+			// the reflect.Type model implements reflect.Type (and interface{})
+			if idst.NumMethods() > 0 && !strings.HasSuffix(instr.AssertedType.String(), "reflect.Type") {
+				err = fmt.Sprintf("interface conversion: *reflect.rtype is not %v", instr.AssertedType)
+			}
+		} else if meth, _ := types.MissingMethod(itf.t, idst, true); meth != nil {
 			err = fmt.Sprintf("interface conversion: %v is not %v: missing method %s", itf.t, idst, meth.Name())
 		}
 	} else if types.Identical(itf.t, instr.AssertedType) {
